@@ -75,7 +75,14 @@ theorem byGene_genomic_order (ignore : List String) (t : List Bin)
     ((byGene ignore t).map (·.2)).flatten = ((byChrom t).map (·.2)).flatten :=
   byGene_partition' ignore t h
 
-/-- **every bin is yielded exactly once and none twice** -/
+/-- **in genomic order**: when the rows of each chromosome are adjacent (a sorted table) the
+    yielded groups, concatenated, are the table itself -/
+theorem byGene_table_partition (ignore : List String) (t : List Bin)
+    (h : TableContiguous (fullIgnore ignore) t) (hg : ChromGrouped t) :
+    ((byGene ignore t).map (·.2)).flatten = t := by
+  rw [byGene_partition' ignore t h, byChrom_flatten_of_grouped' t hg]
+
+/-- **every bin is yielded exactly once and none twice** (any row order) -/
 theorem byGene_each_bin_once (ignore : List String) (t : List Bin)
     (h : TableContiguous (fullIgnore ignore) t) :
     (((byGene ignore t).map (·.2)).flatten).Perm t := byGene_each_bin_once' ignore t h
@@ -204,6 +211,9 @@ theorem repaired_example :
 /-- the demo table meets the hypothesis (gene B is interrupted by an Antitarget bin) -/
 example : TableContiguous (fullIgnore defaultIgnore) demo :=
   (hypothesis_decidable _ _).mp (by decide)
+
+/-- … and its chromosomes are adjacent blocks, so `byGene_table_partition` applies to it -/
+example : ((byGene defaultIgnore demo).map (·.2)).flatten = demo := by decide
 
 /-- a table with interleaved genes does not -/
 example : ¬ Contiguous (fullIgnore defaultIgnore)
